@@ -306,6 +306,29 @@ LABELS = [("Thermal", "thermalXS"), ("Resonance", "resonance"), ("in hr", "Thalf
           ("thermal", "thermalXS_parent"), ("resonance", "resonance_parent"), ("Abund", "abundance")]
 
 
+def direct_halflife_columns(fails):
+    """every row writes the half-life twice: number + unit (s, m, h, d, y) and hours (the column activity() uses)"""
+    import os
+    path = os.path.join(os.path.dirname(act.__file__), "activation.dat")
+    unit = {"s": (1 / 3600.0, 1 / 3600.0), "m": (1 / 60.0, 1 / 60.0), "h": (1.0, 1.0), "d": (24.0, 24.0), "y": (8760.0, 8766.0)}
+    n = 0
+    for line in open(path):
+        c = line.rstrip("\n").split("\t")
+        try:
+            int(c[2]); th, hrs = float(c[8]), float(c[17]); lo, hi = unit[c[9]]
+        except Exception:  # noqa
+            continue
+        n += 1
+        if not (th * lo * 0.998 <= hrs <= th * hi * 1.002):
+            iso = periodictable.elements[int(c[2])][int(c[4])]
+            served = [a.Thalf_hrs for a in getattr(iso, "neutron_activation", ()) if a.daughter == c[7] and a.reaction == c[12].strip('"')]
+            fails.add("C14:halflife-columns:%s->%s" % (c[5], c[7]),
+                      "activation.dat, row %s -> %s (%s): the half-life is written as %s %s but the hours column says %s (= %g %s); "
+                      "activity() uses %r hours" % (c[5], c[7], c[12], c[8], c[9], c[17], hrs / lo, c[9], served),
+                      isotope=c[5], daughter=c[7], reaction=c[12], Thalf=c[8], unit=c[9], Thalf_hrs=c[17])
+    return n
+
+
 def direct_table(fails):
     """third reading of activation.dat: the file's own header lines say which column is which; every
     record served by the implementation must hold the numbers of the columns so labelled"""
@@ -402,6 +425,7 @@ def main(argv):
     direct_elements(fails, random.Random(seed + 17), 2 if npts <= 10 else 6)
     direct_samples(fails, random.Random(seed + 29), 3 if npts <= 10 else 12)
     direct_table(fails)
+    direct_halflife_columns(fails)
     keys = ["%d|%d|%s|%s|%s" % (iso.number, iso.isotope, ai.daughter, ai.reaction, "y" if ai.fast else "n") for iso, j, ai in rows]
     json.dump(dict(cases=cases, meta=meta, direct_fails=fails, nrows=len(rows), row_keys=keys), sys.stdout)
 
